@@ -16,6 +16,28 @@ from . import engine as E
 from .c03 import run_engine_cases
 
 KNOWN_SIG = "C18:error-kind-divergence-all-schedules-fail"
+KNOWN_SIG2 = "C18:outcome-depends-on-order-of-interacting-elimination-constraints"
+
+WITNESS2_H = C.Hierarchy({6: 5}, {7: [True], 8: [False, True], 9: [False]}, 2)
+WITNESS2_PROG = [
+    ("inst", (2, ("o", 3, [("v", 0), ("o", 9, [("v", 1)])]),
+        [("elim", ("v", 0), [("o", 7, [("v", 1)]), ("o", 5, [])]),
+         ("elim", ("v", 0), [("o", 8, [("o", 5, []), ("v", 1)]), ("o", 7, [("o", 5, [])])])])),
+    ("inst", (0, ("o", 7, [("o", 5, [])]), [])),
+    ("apply", 0, 1, True)]
+
+
+def interacting_elims(prog) -> bool:
+    """>= 2 constraints in one schema, at least one of them an elimination
+    constraint with >= 2 alternatives (EliminationConstraint.fulfill unifies as
+    soon as one alternative is left and minimize() fixes alternatives - the
+    call sites whose effect depends on what the other constraints did first)."""
+    for c in prog:
+        if c[0] == "inst":
+            cs = c[1][2]
+            if len(cs) >= 2 and any(k[0] == "elim" and len(k[2]) >= 2 for k in cs):
+                return True
+    return False
 
 WITNESS_H = C.Hierarchy({6: 5}, {7: [True, True]}, 2)
 WITNESS_PROG = [
@@ -70,7 +92,8 @@ def judge(rep, h, prog, runs, tag):
             has_input=True, signature=KNOWN_SIG)
     else:
         rep.violation(tag, dict(payload,
-            what="success/result/bounds/constraints depend on the re-check order"), has_input=True)
+            what="success/result/bounds/constraints depend on the re-check order"), has_input=True,
+            signature=KNOWN_SIG2 if interacting_elims(prog) else None)
     return True
 
 
@@ -85,6 +108,10 @@ def main(tier: str, seed: int, replay: str | None = None) -> int:
     runs, _ = explore(WITNESS_H, WITNESS_PROG, 10)
     reproduced = judge(rep, WITNESS_H, WITNESS_PROG, runs, "corpus_witness")
     items = [(WITNESS_H, [(WITNESS_PROG, e) for e, _, _, _ in runs])]
+    WITNESS2_H.build()
+    runs2, _ = explore(WITNESS2_H, WITNESS2_PROG, 10)
+    reproduced2 = judge(rep, WITNESS2_H, WITNESS2_PROG, runs2, "corpus_witness2")
+    items.append((WITNESS2_H, [(WITNESS2_PROG, e) for e, _, _, _ in runs2]))
     n_prog = multi = n_runs = exhaustive_progs = divergent = 0
     maxpend = 0
     samples = []
@@ -92,10 +119,13 @@ def main(tier: str, seed: int, replay: str | None = None) -> int:
         h = E.gen_engine_hier(rng)
         h.build()
         progs = []
-        for _ in range(npg):
-            prog = E.gen_program(rng, h)
-            if len(prog[0][1][2]) < 2 and rng.random() < 0.8:
-                continue
+        for k in range(npg):
+            if k % 4 == 3:
+                prog = E.gen_nested_elim(rng, h)
+            else:
+                prog = E.gen_program(rng, h)
+                if len(prog[0][1][2]) < 2 and rng.random() < 0.8:
+                    continue
             n_prog += 1
             runs, complete = explore(h, prog, cap)
             n_runs += len(runs)
@@ -115,9 +145,22 @@ def main(tier: str, seed: int, replay: str | None = None) -> int:
                 progs.append((prog, e))
         items.append((h, progs))
     n, dis = run_engine_cases(rep, f"C18_{tier}", items, check=False)
+    intensified = 0
+    if dis and not any(hi for _, hi in rep.violations):
+        # the correspondence broke without a schedule-dependent outcome so far:
+        # search harder for a concrete input on which the property fails
+        for h, _ in items[2:]:
+            for _ in range(400 if tier == "quick" else 3000):
+                prog = E.gen_nested_elim(rng, h) if rng.random() < 0.7 else E.gen_program(rng, h)
+                runs, _ = explore(h, prog, cap)
+                intensified += len(runs)
+                if len(runs) > 1 and judge(rep, h, prog, runs, f"search_{intensified}"):
+                    break
+            if any(hi for _, hi in rep.violations):
+                break
     rep.coverage.update({
         "evaluations": n_runs, "distinct_nontrivial": multi, "disagreements": dis,
-        "model_vs_impl_runs": n,
+        "model_vs_impl_runs": n, "intensified_search_runs": intensified,
         "rule": "C03's constrained schemas/arguments (>= 2 constraints preferred); for each program all choice vectors "
                 f"(all permutations at every re-check point with 2-4 pending constraints, depth-first, at most {cap} runs per "
                 "program); non-trivial = program with at least one choice point (>= 2 distinct schedules run)",
@@ -125,6 +168,7 @@ def main(tier: str, seed: int, replay: str | None = None) -> int:
         "programs_with_divergent_error_kind": divergent,
         "max_pending_constraints_at_a_choice_point": maxpend,
         "refutation_witness_reproduced_on_implementation": reproduced,
+        "result_divergence_witness_reproduced_on_implementation": reproduced2,
         "samples": samples, "exhaustive": False})
     rep.assumptions = [
         "schedule independence of success/result/bounds/constraints is searched, not proved (C18_permute is the proved part)",
